@@ -570,7 +570,11 @@ class Session:
         locdirs[lab] = ''
         continue
       d = os.path.join(base, lab)
-      os.makedirs(d, exist_ok=True)
+      if lab in op.get('_virtual', []):
+        # a search location that is no directory of the file system: only the registered readers know it
+        d = 'virt:/' + lab
+      else:
+        os.makedirs(d, exist_ok=True)
       locdirs[lab] = d
       # a label that occurs a second time is a second registration of the same location
       if d not in cfg._LOCATION_PREFIXES or lab in op['prefixes'][:k]:  # pylint: disable=protected-access
